@@ -281,9 +281,14 @@ def _pred(name, one):
 _FLOATY = (None, float, _np.float64, "f8", "float", "float64", "d", _np.longdouble, _np.float32)
 
 
+def _dt(dtype):
+    """The module-level `float` shim must reach real numpy as the builtin float."""
+    return float if dtype is symfloat else dtype
+
+
 def _is_floaty(dtype):
     try:
-        if dtype is None:
+        if dtype is None or dtype is symfloat:
             return True
         if isinstance(dtype, (list,)):
             return False
@@ -345,7 +350,7 @@ class SymNumpy(types.ModuleType):
                 r[()] = obj
                 return r
             return _obj_array(obj)
-        return _np.array(obj, dtype, *a, **k)
+        return _np.array(obj, _dt(dtype), *a, **k)
 
     @staticmethod
     def asarray(obj, dtype=None, *a, **k):
@@ -353,7 +358,7 @@ class SymNumpy(types.ModuleType):
             if isinstance(obj, _np.ndarray):
                 return obj
             return SymNumpy.array(obj)
-        return _np.asarray(obj, dtype, *a, **k)
+        return _np.asarray(obj, _dt(dtype), *a, **k)
 
     @staticmethod
     def atleast_1d(x):
@@ -369,7 +374,7 @@ class SymNumpy(types.ModuleType):
             r = _np.empty(shape, dtype=object)
             r[...] = Sym(ZERO)
             return r
-        return _np.zeros(shape, dtype, *a, **k)
+        return _np.zeros(shape, _dt(dtype), *a, **k)
 
     @staticmethod
     def ones(shape, dtype=None, *a, **k):
@@ -377,7 +382,7 @@ class SymNumpy(types.ModuleType):
             r = _np.empty(shape, dtype=object)
             r[...] = Sym(ONE)
             return r
-        return _np.ones(shape, dtype, *a, **k)
+        return _np.ones(shape, _dt(dtype), *a, **k)
 
     @staticmethod
     def empty(shape, dtype=None, *a, **k):
@@ -385,7 +390,7 @@ class SymNumpy(types.ModuleType):
             r = _np.empty(shape, dtype=object)
             r[...] = _np.nan
             return r
-        return _np.empty(shape, dtype, *a, **k)
+        return _np.empty(shape, _dt(dtype), *a, **k)
 
     @staticmethod
     def full(shape, fill_value, dtype=None, *a, **k):
@@ -413,8 +418,11 @@ class SymNumpy(types.ModuleType):
 
     @staticmethod
     def arange(*a, **k):
+        want = k.get("dtype")
+        if "dtype" in k:
+            k = dict(k, dtype=_dt(want))
         r = _np.arange(*a, **k)
-        if k.get("dtype") is not None and _is_floaty(k.get("dtype")):
+        if want is not None and _is_floaty(want):
             o = _np.empty(r.shape, dtype=object)
             for i, v in enumerate(r):
                 o[i] = Sym(rv(float(v)))
